@@ -42,14 +42,7 @@ func (i *Int) String() string {
 func (i *Int) Compare(other Object) (int, error) {
 	switch other := other.(type) {
 	case *Float:
-		thisFloat := float64(i.value)
-		if thisFloat == other.value {
-			return 0, nil
-		}
-		if thisFloat > other.value {
-			return 1, nil
-		}
-		return -1, nil
+		return compareIntFloat(i.value, other.value), nil
 	case *Int:
 		if i.value == other.value {
 			return 0, nil
@@ -78,7 +71,7 @@ func (i *Int) Equals(other Object) Object {
 			return True
 		}
 	case *Float:
-		if float64(i.value) == other.value {
+		if compareIntFloat(i.value, other.value) == 0 {
 			return True
 		}
 	case *Byte:
@@ -87,6 +80,37 @@ func (i *Int) Equals(other Object) Object {
 		}
 	}
 	return False
+}
+
+// compareIntFloat compares an int with a float by their exact numeric values and
+// returns -1, 0 or 1. Converting the int to float64 first would round it (beyond
+// 2^53), so that distinct ints become equal to one float and == and the ordering
+// stop being transitive inside lists and sorted(). A NaN is never equal and is
+// ordered as before (the int compares as less).
+func compareIntFloat(i int64, f float64) int {
+	switch {
+	case f != f:
+		return -1
+	case f >= 9223372036854775808.0: // includes +Inf
+		return -1
+	case f < -9223372036854775808.0: // includes -Inf
+		return 1
+	}
+	t := math.Trunc(f) // -2^63 <= t < 2^63: converts to int64 exactly
+	if ti := int64(t); i != ti {
+		if i < ti {
+			return -1
+		}
+		return 1
+	}
+	// same integer part: the fraction of f decides
+	if f > t {
+		return -1
+	}
+	if f < t {
+		return 1
+	}
+	return 0
 }
 
 func (i *Int) IsTruthy() bool {
